@@ -90,15 +90,49 @@ def run(chk, repo):
     idx = match("self.fmmu_used[$i]", claim.stmt.targets[0])["i"]
     lst = "self.fmmu_used"
     # ------------------------------------------------------------ R20.1
-    facts = path_facts(claim.stmt)
-    if any(t and match(f"{lst}[{unparse(idx)}] is None", e) is not None
-           for e, t in facts):
+    free_tests = [n for n in cfg.nodes if n.kind == "test" and match(
+        f"{lst}[{unparse(idx)}] is None", n.expr) is not None]
+    if free_tests:
+        # explicit-test idiom: every path to the claim must leave such a
+        # test through its true edge, with the index unchanged since
+        tids = {n.id for n in free_tests}
+        reach = cfg.reach_edges(
+            cfg.entry, lambda a, b, lab: not (a.id in tids and lab == "true"))
+        ok = claim not in reach
+        path = None
+        if not ok:
+            w = cfg.witness_path(cfg.entry, lambda n: False, targets=[claim])
+            # a path that avoids the true edges
+            prev = {cfg.entry.id: None}
+            stack = [cfg.entry]
+            while stack:
+                n = stack.pop()
+                for m_, lab in n.succ:
+                    if n.id in tids and lab == "true":
+                        continue
+                    if m_.id not in prev:
+                        prev[m_.id] = n
+                        stack.append(m_)
+            if claim.id in prev:
+                p, cur = [], claim
+                while cur is not None:
+                    p.append(cur)
+                    cur = prev[cur.id]
+                path = cfg.describe_path(list(reversed(p)))
+        if ok and isinstance(idx, ast.Name):
+            for t in free_tests:
+                if {id(x) for x in rd.reaching_after(t, idx.id)} != {
+                        id(x) for x in rd.reaching(claim, idx.id)} and \
+                        claim in cfg.reachable(t):
+                    ok = False
+                    path = "the index is re-bound between test and claim"
         chk.ob("R20.1", SYM, "claimed slot tested free (explicit test)",
-               True, claim.stmt, "the claim is guarded by `fmmu_used[i] is "
-               "None` on the same index")
-        search_nodes = [cfg.nodes_containing(e)[0] for e, t in facts
-                        if t and match(f"{lst}[{unparse(idx)}] is None", e)
-                        is not None]
+               ok, claim.stmt, "every path to the claim leaves `fmmu_used[i] "
+               "is None` through its true branch" if ok else
+               "the claim is reachable without having found a free slot "
+               "(e.g. the search loop runs out): the slot of a live mapping "
+               "is taken over", path)
+        search_nodes = free_tests
     else:
         need(isinstance(idx, ast.Name), f"{SYM}: claimed index is not a "
                                         f"local name")
